@@ -31,6 +31,7 @@ import XdslModel.ArithRules
 import XdslModel.CSE
 import XdslModel.DeclFormat
 import XdslModel.PDL
+import XdslModel.RiscVValidate
 /-!
 Model registry for the driver: `MODEL <name>` selects a `(state, lineStep)` pair.
 A continuation-passing encoding is used because the state types differ.
@@ -74,6 +75,7 @@ def run? (name : String) : Option Runner :=
   | "cse" => some fun k => k CSE.lineStep ()
   | "decl_format" => some fun k => k DeclFormat.lineStep {}
   | "pdl" => some fun k => k PDL.lineStep {}
+  | "riscv_validate" => some fun k => k RiscV.TV.lineStep ()
   | _ => none
 
 end Xdsl.Registry
